@@ -359,7 +359,9 @@ func RunWorker(prop string, seed uint64, worker, cases int, scratch, out string,
 		fmt.Sscanf(extra["interrupt"], "%d", &s.ForceInterrupt)
 		base := filepath.Join(scratch, fmt.Sprintf("c%d", c))
 		a := 100 + (propNo*3+worker)%100
-		b := (c*2 + r.Intn(100)*2) % 240
+		// (the driver's pid enters the loopback addresses so that two runs of the same property at the same time -
+		// a quick and a thorough one, two seeds - do not bind the same addresses)
+		b := (c*2 + r.Intn(100)*2 + (os.Getppid()%120)*2) % 240
 		if prop == "C19" {
 			RunClone(s, r, a, b, bin, base)
 		} else if extra["scen"] == "diskfault" {
